@@ -681,3 +681,28 @@ def inline_at_with_let(prog):
             if any(s[0] == "let" for _, s in subexprs(f["body"])):
                 return True
     return False
+
+
+def at_with_let(prog):
+    """the main program or an inline function has an (@ name pattern) parameter and a let / assign form in its body"""
+    if pat_has_at(prog["params"]) and any(s[0] == "let" for _, s in subexprs(prog["body"])):
+        return True
+    for f in prog["funs"]:
+        if pat_has_at(f["params"]) and any(s[0] == "let" for _, s in subexprs(f["body"])):
+            return True
+    return False
+
+
+def main_has_if(prog):
+    return any(s[0] == "if" for _, s in subexprs(prog["body"]))
+
+
+def known_class(prog, dialect, opt):
+    """id of the open known-finding class a (program, dialect, optimise) build falls into, or None"""
+    if dialect == "strict21" and opt:
+        return "D10-strict21-optimized"
+    if dialect == "cl22" and (main_has_if(prog) or any(f["kind"] == "inline" for f in prog["funs"])):
+        return "D18-cl22-identifier-leak"
+    if dialect != "classic" and at_with_let(prog):
+        return "D19-at-capture-with-let"
+    return None
